@@ -36,7 +36,9 @@ OP5 == [kfs |-> <<Kf(1, <<12>>, N_, N_, N_, 0), Kf(3, <<60>>, N_, N_, N_, 12), K
 OP6 == [kfs |-> <<Kf(0, N_, N_, N_, <<3>>, 0), Kf(4, <<5>>, N_, N_, <<33>>, 0)>>, de |-> 1, tm |-> Tm(6, 1, 0, TRUE)]
 OP7 == [kfs |-> <<Kf(0, N_, <<6>>, <<2>>, N_, 0)>>, de |-> 1, tm |-> Tm(4, 3, 3, FALSE)]
 OP8 == [kfs |-> <<Kf(4, <<7>>, N_, N_, N_, 0)>>, de |-> 1, tm |-> Tm(2, 0, -3, FALSE)]
-ObjPool == << <<OP1>>, <<OP3>>, <<OP1, OP2>>, <<OP2, OP3>>, <<OP4, OP5, OP6>>, <<>>, <<OP5>>, <<OP6, OP1>>, <<OP7, OP3, OP4>>, <<OP2, OP7>> >>
+\* two properties with DIFFERENT custom easings over the same segment (evaluated back to back at the same x)
+OP9 == [kfs |-> <<Kf(0, <<4>>, N_, N_, N_, 2), Kf(0, N_, <<6>>, N_, N_, 3), Kf(0, N_, N_, <<1>>, N_, 4), Kf(4, <<44>>, <<66>>, <<81>>, N_, 0)>>, de |-> 1, tm |-> Tm(8, 0, 1, FALSE)]
+ObjPool == << <<OP1>>, <<OP3>>, <<OP1, OP2>>, <<OP2, OP3>>, <<OP4, OP5, OP6>>, <<>>, <<OP5>>, <<OP6, OP1>>, <<OP7, OP3, OP4>>, <<OP2, OP7>>, <<OP9>>, <<OP9, OP2>> >>
 ValPool == << <<70, 71, 72, 73>>, <<-5, 0, 100, 1>>, <<8, 20, 9, 3>> >>
 
 I0(n) == <<"i", n>>
